@@ -189,4 +189,66 @@ func c05UCI(r *ev.Run) {
 			r.Fail("uci/plays-ungenerated-move", c05Case{FEN: pr.fen, Move: pr.mv}, "position fen %s moves %s: the driver played it: %s", pr.fen, pr.mv, got)
 		}
 	}
+	// every string of length 4 over a 14-byte alphabet, and every generated move followed by every byte, as a GUI
+	// move: afterwards the board is either unchanged or the position after one generated move of the root
+	roots := []string{
+		"rnbqkbnr/pppppppp/8/8/8/8/PPPPPPPP/RNBQKBNR w KQkq - 0 1",
+		"r3k2r/1P4P1/8/3pP3/8/8/1p4p1/R3K2R w KQkq d6 0 1",
+		"r3k2r/1P4P1/8/8/3Pp3/8/1p4p1/R3K2R b KQkq d3 0 1",
+	}
+	alpha := []byte("aeh1248qQRi9`0")
+	var tried atomic.Int64
+	ev.Parallel(len(roots)*len(alpha), func(worker, item int) {
+		fen := roots[item/len(alpha)]
+		first := alpha[item%len(alpha)]
+		b, _ := board.FromFEN(fen)
+		allowed := map[string]bool{b.FEN(): true}
+		ms := move.NewStore()
+		var gen [256]uint16
+		var moves []string
+		for _, e := range eng.Generated(ms, b, gen[:0]) {
+			rv := b.MakeMove(move.Move(e))
+			allowed[b.FEN()] = true
+			b.UndoMove(move.Move(e), rv)
+			moves = append(moves, move.Move(e).String())
+		}
+		var script strings.Builder
+		var sent []string
+		add := func(s string) {
+			fmt.Fprintf(&script, "position fen %s moves %s\nfen\n", fen, s)
+			sent = append(sent, s)
+		}
+		for _, c2 := range alpha {
+			for _, c3 := range alpha {
+				for _, c4 := range alpha {
+					add(string([]byte{first, c2, c3, c4}))
+				}
+			}
+		}
+		if item%len(alpha) == 0 {
+			for _, m := range moves {
+				base := m[:4]
+				for c := 33; c < 256; c++ {
+					if c == 127 {
+						continue
+					}
+					add(base + string([]byte{byte(c)}))
+				}
+			}
+		}
+		out, _ := runDriver(script.String(), nullSearch{})
+		lines := strings.Split(strings.TrimRight(out, "\n"), "\n")
+		tried.Add(int64(len(sent)))
+		for i, s := range sent {
+			if i >= len(lines) || !allowed[lines[i]] {
+				got := ""
+				if i < len(lines) {
+					got = lines[i]
+				}
+				r.Fail("uci/plays-ungenerated-move", c05Case{FEN: fen, Move: s}, "position fen %s moves %q: the driver now holds %q, which is neither the root nor the position after a generated move", fen, s, got)
+				return
+			}
+		}
+	})
+	r.Set("uci_move_strings", tried.Load())
 }
